@@ -87,7 +87,6 @@ func simple(name, doc string, opts ...simpleOpt) {
 func init() {
 	simple("strings.ReplaceAll", "strings.ReplaceAll: total; result is some string (its content is not modelled)")
 	simple("encoding/hex.DecodeString", "hex.DecodeString: total; returns bytes no longer than the input, or an error")
-	simple("fmt.Sprintf", "fmt.Sprintf: total; result is some string (format evaluation is modelled separately where a property needs it)")
 	simple("path.Join", "path.Join: total; result is some string")
 	simple("bytes.Trim", "bytes.Trim: total; result is a sub-slice of the input")
 	simple("os.IsNotExist", "os.IsNotExist: total predicate")
